@@ -65,6 +65,8 @@ def run_path(fn, params, prefix, step_budget, solver_timeout_ms, profile=False):
         fn(**params)
     except core.Stop:
         status = "ok"
+    except core.OutOfBound as e:
+        status, msg = "abort", "outside-bound: " + str(e)
     except core.PathAbort as e:
         status, msg = "abort", str(e)
     except core.Unwound as e:
@@ -141,6 +143,8 @@ def explore_chunk(modname, obname, scen_idx, prefixes, tier, chunk_s, max_paths,
                                           "assertions_discharged_on_path": ctx.discharged,
                                           "covered": sorted(cov),
                                           "witness_input": dict(list(mv.items())[:24])})
+        if status == "abort" and msg.startswith("outside-bound"):
+            st["msgs"][msg[:200]] = st["msgs"].get(msg[:200], 0) + 1
         if status in ("unsupported", "unwound", "error"):
             k = "%s: %s" % (status, msg.strip().splitlines()[-1][:300] if msg.strip() else "")
             st["msgs"][k] = st["msgs"].get(k, 0) + 1
